@@ -82,6 +82,9 @@ impl Outcome {
     }
 }
 
+/// per-shard cap of the distinct-counting sets
+const SET_CAP: usize = 250_000;
+
 pub trait Campaign: Sync {
     type Scenario: Serialize + DeserializeOwned + Clone;
     fn prop(&self) -> &'static str;
@@ -212,6 +215,7 @@ pub fn worker<C: Campaign>(c: &C, tier: Tier, master: u64, shard: u64, shards: u
     let mut samples: Vec<Value> = vec![];
     let mut trace_hashes: Vec<(i64, u64)> = vec![];
     let mut minimised_per_invariant: BTreeMap<String, u32> = BTreeMap::new();
+    let mut capped = false;
     // run indices: negative = explicit seeded scenarios, 0.. = generated
     let mut idx: i64 = -(nseeded as i64);
     while idx < total as i64 {
@@ -242,15 +246,29 @@ pub fn worker<C: Campaign>(c: &C, tier: Tier, master: u64, shard: u64, shards: u
         for p in &o.probes {
             *probes.entry(p.clone()).or_insert(0) += 1;
         }
-        sched.insert(o.schedule_hash);
+        // the distinct-counting sets are capped per shard (thorough runs make tens of millions of runs): a
+        // capped count is a lower bound, and the evidence says so
+        if sched.len() < SET_CAP {
+            sched.insert(o.schedule_hash);
+        } else {
+            capped = true;
+        }
         for s in &o.states {
-            states.insert(*s);
+            if states.len() < SET_CAP {
+                states.insert(*s);
+            } else {
+                capped = true;
+            }
         }
         let sc_json = serde_json::to_value(&sc).unwrap_or(Value::Null);
         if o.nontrivial {
-            let mut h = Fnv::new();
-            h.str(&sc_json.to_string());
-            nontrivial.insert(h.finish());
+            if nontrivial.len() < SET_CAP {
+                let mut h = Fnv::new();
+                h.str(&sc_json.to_string());
+                nontrivial.insert(h.finish());
+            } else {
+                capped = true;
+            }
         }
         if let Some(p) = &o.foreign_panic {
             let _ = writeln!(out, "P {}", json!({"run": idx, "panic": p, "scenario": sc_json}));
@@ -288,7 +306,7 @@ pub fn worker<C: Campaign>(c: &C, tier: Tier, master: u64, shard: u64, shards: u
         idx += 1;
     }
     let summary = json!({
-        "runs": runs, "verdicts": verdicts, "abstains": abstains, "stats": agg_stats, "probes": probes,
+        "capped": capped, "runs": runs, "verdicts": verdicts, "abstains": abstains, "stats": agg_stats, "probes": probes,
         "sched": sched.iter().collect::<Vec<_>>(), "states": states.iter().collect::<Vec<_>>(),
         "nontrivial": nontrivial.iter().collect::<Vec<_>>(), "samples": samples,
         "trace_hashes": if hashes_only { json!(trace_hashes) } else { json!([]) },
@@ -301,6 +319,7 @@ pub fn worker<C: Campaign>(c: &C, tier: Tier, master: u64, shard: u64, shards: u
 // parent: spawns shards, watches them, merges, reports
 
 pub struct Merged {
+    pub capped: bool,
     pub runs: u64,
     pub verdicts: u64,
     pub abstains: BTreeMap<String, u64>,
@@ -367,6 +386,7 @@ pub fn drive(prop: &str, tier: Tier, master: u64, shards: u64, total: u64, hashe
     }
     drop(tx);
     let mut m = Merged {
+        capped: false,
         runs: 0,
         verdicts: 0,
         abstains: BTreeMap::new(),
@@ -408,6 +428,7 @@ pub fn drive(prop: &str, tier: Tier, master: u64, shards: u64, total: u64, hashe
                     done[k as usize] = true;
                     if let Ok(v) = serde_json::from_str::<Value>(rest) {
                         m.runs += v["runs"].as_u64().unwrap_or(0);
+                        m.capped |= v["capped"].as_bool().unwrap_or(false);
                         m.verdicts += v["verdicts"].as_u64().unwrap_or(0);
                         for (name, field) in [("abstains", &mut m.abstains), ("stats", &mut m.stats), ("probes", &mut m.probes)] {
                             if let Some(o) = v[name].as_object() {
@@ -585,6 +606,7 @@ pub fn check<C: Campaign>(c: &C, a: &CheckArgs) -> i32 {
             "runs_per_hour": if wall > 0.0 { (m.runs as f64 / wall * 3600.0) as u64 } else { 0 },
             "runs_with_verdict": m.verdicts,
             "abstained": m.abstains,
+            "distinct_counts_are_lower_bounds": m.capped,
             "distinct_schedules": m.sched.len(),
             "distinct_states": m.states.len(),
             "counters": m.stats,
